@@ -25,3 +25,22 @@ package ecdsa
 //@   ensures (!old(sig.IsNormalized()) && old(sig.v) != nil) ==> sig.v != nil && *sig.v == old(*sig.v) ^ 1
 //@   ensures (!old(sig.IsNormalized()) && old(sig.v) == nil) ==> sig.v == nil
 //@   ensures sig.r == old(sig.r)
+
+// Public-key recovery (SEC 1 4.1.6): the candidate x-coordinate is r read into the base field, plus the group order n
+// (base-field addition, unconditionally) exactly when bit 1 of the recovery id is set; the nonce point R is the point
+// with that x-coordinate and the y-parity given by bit 0 of the recovery id; the recovered key is r^-1 (sR - zG) with
+// z the standard digest-to-scalar conversion of the hash of exactly this message. Both bits of the recovery id are
+// therefore binding: a different id selects a different candidate.
+//@ func RecoverPublicKey
+//@   property C15, C01
+//@   purefn
+//@   ghostvar rx0 typeof(rx)
+//@   ghostvar rxf typeof(rx)
+//@   ensures err == nil ==> suite != nil && signature != nil && signature.v != nil
+//@   ensures err == nil ==> rx0 == res(suite.baseField.FromWideBytes(signature.r.Bytes()), 0)
+//@   ensures err == nil && (*signature.v & 2) == 0 ==> rxf == rx0
+//@   ensures err == nil && (*signature.v & 2) != 0 ==> rxf == rx0.Add(res(suite.baseField.FromWideBytes(suite.curve.Order().Bytes()), 0))
+//@   ensures err == nil ==> res(suite.curve.FromAffineX(rxf, (*signature.v & 1) != 0), 1) == nil && res(signature.r.TryInv(), 1) == nil
+//@   ensures err == nil ==> result == res(NewPublicKey(res(suite.curve.FromAffineX(rxf, (*signature.v & 1) != 0), 0).ScalarMul(signature.s).Sub(suite.curve.ScalarBaseMul(res(DigestToScalar(suite.scalarField, res(hashing.Hash(suite.hashFunc, message), 0)), 0))).ScalarMul(res(signature.r.TryInv(), 0))), 0)
+//@   ghostset after "rx, err := suite.baseField.FromWideBytes(signature.r.Bytes())": rx0 = rx
+//@   ghostset before "r, err := suite.curve.FromAffineX(rx, (*signature.v&0b1) != 0)": rxf = rx
